@@ -41,6 +41,7 @@ type TplSet struct {
 }
 
 type Env struct {
+	subst     map[types.Object]string // parameters of a local factory bound to constants (see applyFactory)
 	P         *load.Program
 	Body      *TplSet
 	Head      *TplSet
@@ -181,7 +182,19 @@ func (e *Env) readBuild(files []*ast.File, info *types.Info) {
 			if k == nil {
 				continue
 			}
-			switch k.Name {
+			// the fields are recognised by their types, not their names: the string is the set's name,
+			// the []string the patterns, the fs.FS the embedded file system
+			role := ""
+			switch ft := info.TypeOf(kv.Value); {
+			case ft == nil:
+			case types.TypeString(ft, nil) == "string" || types.TypeString(ft, nil) == "untyped string":
+				role = "name"
+			case types.TypeString(ft, nil) == "[]string":
+				role = "patterns"
+			case types.TypeString(ft, nil) == "embed.FS" || types.TypeString(ft, nil) == "io/fs.FS":
+				role = "fsys"
+			}
+			switch role {
 			case "name":
 				t.name, _ = load.StringOf(info, kv.Value)
 			case "patterns":
@@ -217,7 +230,8 @@ func (e *Env) readBuild(files []*ast.File, info *types.Info) {
 		if !ok {
 			return true
 		}
-		if se, ok := ast.Unparen(call.Fun).(*ast.SelectorExpr); ok && se.Sel.Name == "exec" {
+		if se, ok := ast.Unparen(call.Fun).(*ast.SelectorExpr); ok {
+			// the first method call on a template-set variable executes it
 			if id, ok := ast.Unparen(se.X).(*ast.Ident); ok {
 				if _, seen := execPos[info.ObjectOf(id)]; !seen {
 					execPos[info.ObjectOf(id)] = call.Pos()
@@ -417,17 +431,103 @@ func (e *Env) readFuncMap(files []*ast.File, info *types.Info) {
 			continue
 		}
 		m := &FuncModel{Name: name, Pos: kv.Pos()}
+		e.subst = nil
 		fl, ok := ast.Unparen(kv.Value).(*ast.FuncLit)
 		if !ok {
-			m.Problem = "value is not a function literal"
+			// a local factory applied to constants: f := func(p string) func() string { return func() string { … p … } }; "x": f("c")
+			fl = e.applyFactory(info, fd, kv.Value)
+		}
+		if fl == nil {
+			m.Problem = "value is not a function literal (nor a local factory of one applied to constants)"
 		} else {
 			e.classifyFunc(info, fd, fl, m)
 		}
+		e.subst = nil
 		if m.Problem != "" {
 			e.problem("FuncMap entry %q has no model: %s", name, m.Problem)
 		}
 		e.Funcs[name] = m
 	}
+}
+
+// applyFactory: value is `f(c1, …)` with f a local variable bound once to a function literal whose body is
+// `return func(…) … { … }` and c_i constant strings; returns the inner literal and records the
+// substitution parameter -> constant for strEval.
+func (e *Env) applyFactory(info *types.Info, outer *ast.FuncDecl, value ast.Expr) *ast.FuncLit {
+	call, ok := ast.Unparen(value).(*ast.CallExpr)
+	if !ok {
+		return nil
+	}
+	id, ok := ast.Unparen(call.Fun).(*ast.Ident)
+	if !ok {
+		return nil
+	}
+	obj := info.ObjectOf(id)
+	var factory *ast.FuncLit
+	n := 0
+	ast.Inspect(outer.Body, func(nd ast.Node) bool {
+		as, isA := nd.(*ast.AssignStmt)
+		if !isA {
+			return true
+		}
+		for i, l := range as.Lhs {
+			if lid, isI := l.(*ast.Ident); isI && info.ObjectOf(lid) == obj && i < len(as.Rhs) {
+				n++
+				factory, _ = ast.Unparen(as.Rhs[i]).(*ast.FuncLit)
+			}
+		}
+		return true
+	})
+	if n != 1 || factory == nil || len(factory.Body.List) != 1 {
+		return nil
+	}
+	rs, ok := factory.Body.List[0].(*ast.ReturnStmt)
+	if !ok || len(rs.Results) != 1 {
+		return nil
+	}
+	inner, ok := ast.Unparen(rs.Results[0]).(*ast.FuncLit)
+	if !ok {
+		return nil
+	}
+	subst := map[types.Object]string{}
+	i := 0
+	for _, f := range factory.Type.Params.List {
+		for _, nm := range f.Names {
+			if i >= len(call.Args) {
+				return nil
+			}
+			s, isConst := load.StringOf(info, call.Args[i])
+			if !isConst {
+				return nil
+			}
+			subst[info.ObjectOf(nm)] = s
+			i++
+		}
+	}
+	e.subst = subst
+	return inner
+}
+
+// strEval folds a string expression made of constants, + and factory parameters bound to constants.
+func (e *Env) strEval(info *types.Info, x ast.Expr) (string, bool) {
+	if s, ok := load.StringOf(info, x); ok {
+		return s, true
+	}
+	switch v := ast.Unparen(x).(type) {
+	case *ast.Ident:
+		if s, ok := e.subst[info.ObjectOf(v)]; ok {
+			return s, true
+		}
+	case *ast.BinaryExpr:
+		if v.Op == token.ADD {
+			a, ok1 := e.strEval(info, v.X)
+			b, ok2 := e.strEval(info, v.Y)
+			if ok1 && ok2 {
+				return a + b, true
+			}
+		}
+	}
+	return "", false
 }
 
 func (e *Env) classifyFunc(info *types.Info, outer *ast.FuncDecl, fl *ast.FuncLit, m *FuncModel) {
@@ -455,7 +555,7 @@ func (e *Env) classifyFunc(info *types.Info, outer *ast.FuncDecl, fl *ast.FuncLi
 						m.Kind = "aliasArg"
 						return
 					}
-					if s, ok := load.StringOf(info, call.Args[0]); ok {
+					if s, ok := e.strEval(info, call.Args[0]); ok {
 						m.Kind, m.Path = "aliasConst", s
 						return
 					}
@@ -565,6 +665,53 @@ func (e *Env) tagMapFill(info *types.Info, outer *ast.FuncDecl, M types.Object) 
 				}
 				return true
 			})
+			// two-step form: inner, found := M[tag.Name]; if !found { inner = make(…); M[tag.Name] = inner }; inner[service.Name] = …
+			selOn := func(x ast.Expr, v *ast.Ident) bool {
+				s, isS := ast.Unparen(x).(*ast.SelectorExpr)
+				if !isS || s.Sel.Name != "Name" {
+					return false
+				}
+				id, isI := ast.Unparen(s.X).(*ast.Ident)
+				return isI && info.ObjectOf(id) == info.ObjectOf(v)
+			}
+			isMTag := func(x ast.Expr) bool {
+				ix, isIx := ast.Unparen(x).(*ast.IndexExpr)
+				if !isIx {
+					return false
+				}
+				mid, isM := ast.Unparen(ix.X).(*ast.Ident)
+				return isM && info.ObjectOf(mid) == M && selOn(ix.Index, tv)
+			}
+			loaded, storedBack, filled := map[types.Object]bool{}, map[types.Object]bool{}, map[types.Object]bool{}
+			ast.Inspect(rs2.Body, func(n3 ast.Node) bool {
+				as, isA := n3.(*ast.AssignStmt)
+				if !isA || len(as.Rhs) != 1 {
+					return true
+				}
+				if isMTag(as.Rhs[0]) && len(as.Lhs) >= 1 {
+					if id, isI := as.Lhs[0].(*ast.Ident); isI {
+						loaded[info.ObjectOf(id)] = true
+					}
+				}
+				if len(as.Lhs) == 1 && isMTag(as.Lhs[0]) {
+					if id, isI := ast.Unparen(as.Rhs[0]).(*ast.Ident); isI {
+						storedBack[info.ObjectOf(id)] = true
+					}
+				}
+				if len(as.Lhs) == 1 {
+					if ix, isIx := ast.Unparen(as.Lhs[0]).(*ast.IndexExpr); isIx && selOn(ix.Index, sv) {
+						if id, isI := ast.Unparen(ix.X).(*ast.Ident); isI {
+							filled[info.ObjectOf(id)] = true
+						}
+					}
+				}
+				return true
+			})
+			for o := range filled {
+				if loaded[o] && storedBack[o] {
+					ok = true
+				}
+			}
 			return true
 		})
 		return true
